@@ -386,15 +386,13 @@ func (i *Int) UnmarshalFrom(r io.Reader) (int, error) {
 // Panics if max != 0 and the Int cannot be represented in max bytes.
 func (i *Int) BigEndian(minBytes, maxBytes int) []byte {
 	act := i.MarshalSize()
-	pad, ofs := act, 0
-	if pad < minBytes {
-		pad, ofs = minBytes, minBytes-act
-	}
+	pad := max(act, minBytes)
 	if maxBytes != 0 && pad > maxBytes {
 		panic("Int not representable in max bytes")
 	}
 	buf := make([]byte, pad)
-	copy(buf[ofs:], i.V.Bytes(nil))
+	b := i.V.Bytes(nil) // minimal length: right-align it like the constant-time build (FillBytes) does
+	copy(buf[pad-len(b):], b)
 	return buf
 }
 
